@@ -555,6 +555,9 @@ def _peak_search(ck: Checker, prog: Program):
             for x in literals(l):
                 y = x.replace(lambda e: getattr(e, "func", None) is not None and getattr(e.func, "__name__", "") in ("find_peaks", "_find_peak_unbounded", "_search_range_to_index_range"),
                               lambda e: sp.Symbol("<peaks>"))
+                # positions of extrema do not change when all amplitudes are rescaled by a common positive factor
+                y = y.replace(lambda e: getattr(e, "func", None) is not None and getattr(e.func, "__name__", "") in ("argmax", "argmin", "nanargmax", "nanargmin", "argsort"),
+                              lambda e: sp.Symbol("<index>"))
                 if y.has(AMP):
                     bad.append(x)
         if not bad:
